@@ -56,7 +56,7 @@ def build(family, report):
     chs = skel.f_compress_H(rep)
     if not gen:
         G("expand_basis", base + t_eb + s_eb.harness("h", skel.ALLOC_FAC + "  Mat V = MAT_NEW(ND_SIZE(), ND_SIZE()); Index seed = nondet_Index(); Scalar *f = VEC_NEW(ND_SIZE()); Scalar fn_ = nondet_Scalar(); Scalar *fnorm = &fn_;", "F, V, seed, f, fnorm, op_counter"),
-          "h", "expand_basis", ["Arnoldi.h:expand_basis"], ["C05", "C07", "C13", "C14"], expect=["loop_invariant_step", "operator argument"])
+          "h", "expand_basis", ["Arnoldi.h:expand_basis"], ["C01", "C05", "C07", "C13", "C14"], expect=["loop_invariant_step", "operator argument"])
         G("fac_init", base + t_fi + s_fi.harness("h", skel.ALLOC_FAC + "  Scalar *v0 = VEC_NEW(ND_SIZE());", "F, v0, op_counter"),
           "h", "fac_init", ["Arnoldi.h:init"], ["C05", "C06", "C07", "C12", "C13", "C14"], expect=["operator argument"])
         G("compress_V", base + t_cv + s_cv.harness("h", skel.ALLOC_FAC + "  Mat Q = MAT_NEW(ND_SIZE(), ND_SIZE());", "F, Q"),
@@ -65,7 +65,7 @@ def build(family, report):
             G(s.cname, base + t + s.harness("h", skel.ALLOC_FAC + "  QRDecomp dq; dq.n = nondet_Index(); dq.computed = nondet_bool(); const QRDecomp *decomp = &dq;", "F, decomp"),
               "h", s.cname, [s.real], ["C07", "C13"])
     G("factorize_from", base + s_eb.stub() + t_ff + s_ff.harness("h", skel.ALLOC_FAC + "  Index from_k = nondet_Index(), to_m = nondet_Index();", "F, from_k, to_m, op_counter"),
-      "h", "factorize_from", ["%s.h:factorize_from" % which], ["C05", "C07", "C13", "C14"], timeout=900,
+      "h", "factorize_from", ["%s.h:factorize_from" % which], ["C01", "C05", "C07", "C13", "C14"], timeout=900,
       expect=["loop_invariant_step", "operator argument", "Eigen index assertion"], note="callee expand_basis replaced by its contract")
 
     # ---- solver functions
@@ -123,9 +123,9 @@ def build(family, report):
         G("ctor.rvalue", sbase + t_c2.replace("solver_ctor(", "solver_ctor1(") + s_c2.harness("h", "  Op opv; Op *op = &opv; op->n = nondet_Index(); Solver St; Solver *S = &St; Index nev = nondet_Index(), ncv = nondet_Index();", "S, op, nev, ncv"),
           "h", "solver_ctor1", [hdr + ":constructor(OpType&&)"], ["C12"])
     G("eigenvalues", sbase + t_ev + s_ev.harness("h", arb_state() + "  g_prefix = IVEC_NEW(ND_SIZE());", "S"), "h", "eigenvalues",
-      [hdr + ":eigenvalues"], ["C05", "C13"], expect=["loop_invariant_step"])
+      [hdr + ":eigenvalues"], ["C01", "C05", "C13"], expect=["loop_invariant_step"])
     G("eigenvectors", sbase + t_ex + s_ex.harness("h", arb_state() + "  g_prefix = IVEC_NEW(ND_SIZE()); Index nvec = nondet_Index();", "S, nvec"), "h", "eigenvectors",
-      [hdr + ":eigenvectors(nvec)", hdr + ":eigenvectors()"], ["C05", "C13"], expect=["loop_invariant_step", "Eigen index assertion"])
+      [hdr + ":eigenvectors(nvec)", hdr + ":eigenvectors()"], ["C01", "C05", "C13"], expect=["product dimensions agree", "eigenvectors:"])
     # ---- shift-and-invert overrides of sort_ritzpair
     t_sh, s_sh, ops = skel.f_shift_sort(gen, rep)
     skel.f_shift_ctor(rep)
